@@ -23,7 +23,7 @@ var huge = 1; for i in 0..1000 { huge = huge * 2; }
 "#;
 
 /// (name, expression)
-fn pool() -> Vec<(&'static str, &'static str)> {
+pub fn pool() -> Vec<(&'static str, &'static str)> {
     vec![
         ("nil", "nil"), ("true", "true"), ("false", "false"), ("zero", "0"), ("neg_zero", "-0"), ("one", "1"), ("minus_one", "-1"), ("frac", "1.5"),
         ("two53", "9007199254740992"), ("two63", "9223372036854775808"), ("minus_two63", "-9223372036854775808"), ("huge", "huge"), ("inf", "1 / 0"), ("neg_inf", "-1 / 0"),
@@ -36,7 +36,7 @@ fn pool() -> Vec<(&'static str, &'static str)> {
 }
 
 /// (class label, receiver expression, methods with arity)
-fn natives() -> Vec<(&'static str, &'static str, Vec<(&'static str, usize)>)> {
+pub fn natives() -> Vec<(&'static str, &'static str, Vec<(&'static str, usize)>)> {
     let iter_methods = vec![("next", 0), ("iter", 0), ("map", 1), ("filter", 1), ("reduce", 2), ("collect", 0)];
     vec![
         ("String", "\"h\u{e9}llo\"", vec![("iter", 0), ("len", 0), ("is_alpha", 0), ("is_digit", 0), ("is_hexdigit", 0), ("count_chars", 0), ("char_byte_index", 1), ("find", 2), ("replace", 2), ("split", 1), ("starts_with", 1), ("ends_with", 1), ("to_num", 0), ("to_bytes", 0), ("to_code_points", 0), ("derives", 1)]),
